@@ -2,3 +2,4 @@ import CheetahModel.Properties.C14
 #print axioms C14.features_cover_ctor
 #print axioms C14.features_accepted
 #print axioms C14.table_nonvacuous
+#print axioms C14.roundtrip
